@@ -113,7 +113,8 @@ def parseIP (s : Bytes) : Option (List UInt8) :=
   else match s.find? (fun c => c == 46 || c == 58) with
     | none => none
     | some c =>
-      if c == 46 then (parseIPv4 s).map (v4in6Prefix ++ ·) else parseIPv6 s
+      -- the final length test stands for Go's result type [16]byte; it never fails (stream c15.host)
+      (if c == 46 then (parseIPv4 s).map (v4in6Prefix ++ ·) else parseIPv6 s).filter (·.length == 16)
 
 /-- net.IP.To4 on a 16-byte address -/
 def to4 (ip : List UInt8) : Option (List UInt8) :=
